@@ -25,7 +25,8 @@ HasPost(r) == "post" \in DOMAIN r /\ r.post.chk
 QHeights(q) == UNION { { q[i][1], q[i][2] } : i \in DOMAIN q }
 ShHeights(sh) == UNION { { sh[P][i][2] : i \in DOMAIN sh[P] } : P \in PoolSet }
 HeightsOf(r) == (IF HasPost(r) THEN QHeights(r.post.queue) \cup ShHeights(r.post.shards) ELSE {})
-                \cup (IF r.a \in { "roots", "tip", "block" } THEN { r.h } ELSE {})
+                \cup (IF r.a \in { "roots", "tip", "block", "prune" } THEN { r.h } ELSE {})
+                \cup (IF r.a = "rescan" THEN UNION { { r.ranges[i][1], r.ranges[i][2] } : i \in DOMAIN r.ranges } ELSE {})
                 \cup (IF r.a = "reset" THEN { r.bday } \cup { r.act[i][2] : i \in DOMAIN r.act } ELSE {})
                 \cup (IF r.a = "trunc" THEN { r.req } ELSE {})
 AllH == { 0 } \cup UNION { HeightsOf(Rec[i]) : i \in DOMAIN Rec }
@@ -40,8 +41,10 @@ VARIABLES l,
           top,       \* height of the harness chain
           notesAt,   \* height -> the wallet's notes in that block, as << pool, position >>
           ends,      \* pool -> { << shard index, end height >> } the wallet knows
-          bday, act  \* wallet birthday; pool -> activation height (WQ!NoH: not active)
-vars == << l, Q, scanned, top, notesAt, ends, bday, act >>
+          bday, act, \* wallet birthday; pool -> activation height (WQ!NoH: not active)
+          apart      \* an earlier insertion of this history lay APART from the stored queue (the open finding of the check:
+                     \* replace_queue_entries leaves the heights between unqueued); the table is read off the projection then
+vars == << l, Q, scanned, top, notesAt, ends, bday, act, apart >>
 
 LoggedEnds(sh) == [P \in PoolSet |-> { << sh[P][i][1], sh[P][i][2] >> : i \in DOMAIN sh[P] }]
 ActOf(a) == [P \in PoolSet |-> IF \E i \in DOMAIN a : a[i][1] = P THEN a[CHOOSE i \in DOMAIN a : a[i][1] = P][2] ELSE WQ!NoH]
@@ -49,6 +52,22 @@ NotesOf(txs) == UNION { { << o.pool, o.pos >> : o \in { o \in SeqToSet(txs[i].ou
 MaxScanned == IF scanned = {} THEN WQ!NoH ELSE CHOOSE x \in scanned : \A y \in scanned : x >= y
 
 IsEvent(e) == l <= Len(Rec) /\ Rec[l].a = e /\ l' = l + 1
+
+\* the queue after an operation: the prediction `pred`, made from the insertions `ins` the operation generates.  The step
+\* whose insertions lie apart from the queue is still predicted exactly (WQ!Replace leaves the gap the row-wise code
+\* leaves); from the next operation on the pointwise model no longer describes the row-wise code and the specification
+\* follows the logged table until the next reset.
+ApartNow(ins) == ins # << >> /\ Q.lo < Q.hi /\ ~(Q.lo <= WQ!SeqMax(ins, 1, TLo - 1) /\ WQ!SeqMin(ins, 1, THi + 1) <= Q.hi)
+SetQ(pred, ins, r) ==
+    IF ~apart /\ ApartNow(ins) /\ HasPost(r)
+    THEN \* the pinned code leaves the heights between unqueued (the listed finding) ...
+         \/ /\ Q' = pred /\ apart' = TRUE
+            /\ WQ!Vec(pred) = r.post.queue
+            /\ PrintT(<< "WQSTAT", "apart", r.a, l >>)
+         \* ... the dominance rule of the property makes them Historic (a repaired replace_queue_entries)
+         \/ /\ Q' = WQ!FoldIns(Q.f, Q.lo, Q.hi, ins, 1) /\ apart' = FALSE
+    ELSE /\ apart' = (apart \/ ApartNow(ins))
+         /\ Q' = IF apart /\ HasPost(r) THEN WQ!FromVec(r.post.queue) ELSE pred
 
 \* ---- the logged table is the specification's (EXPLAIN=1: a difference is printed and the trace goes on)
 Agrees(r) == \/ ~HasPost(r)
@@ -63,13 +82,13 @@ TReset == /\ IsEvent("reset")
           /\ Q' = WQ!FromVec(Rec[l].post.queue)            \* the wallet as created (Ignored below the birthday, if anything)
           /\ scanned' = {} /\ top' = 0 /\ notesAt' = << >>
           /\ ends' = LoggedEnds(Rec[l].post.shards)
-          /\ bday' = Rec[l].bday /\ act' = ActOf(Rec[l].act)
+          /\ bday' = Rec[l].bday /\ act' = ActOf(Rec[l].act) /\ apart' = FALSE
           /\ PostOK(Rec[l])
 
 TBlock == /\ IsEvent("block")
           /\ top' = Rec[l].h
           /\ notesAt' = [x \in 1..Rec[l].h |-> IF x = Rec[l].h THEN NotesOf(Rec[l].txs) ELSE notesAt[x]]
-          /\ UNCHANGED << Q, scanned, ends, bday, act >>
+          /\ UNCHANGED << Q, scanned, ends, bday, act, apart >>
           /\ PostOK(Rec[l])
 
 \* statistics for the vacuity guard of the check (which rule a tip update exercised)
@@ -80,7 +99,10 @@ TTip == /\ IsEvent("tip")
         /\ LET ms  == MaxScanned
                mst == WQ!MinShardTip(ends)
                t   == Rec[l].h
-           IN  /\ Q' = IF Rec[l].res = "ok" THEN WQ!UpdateChainTip(Q, t, act["S"], ms, bday, mst) ELSE Q
+               ins == IF Rec[l].res # "ok" \/ t < act["S"] \/ (ms # WQ!NoH /\ t < ms) THEN << >>
+                      ELSE IF ms = WQ!NoH /\ bday = WQ!NoH THEN << WQ!Ins(act["S"], t + 1, WQ!Ignored, FALSE) >>
+                      ELSE WQ!TipInsertions(t, ms, bday, mst)
+           IN  /\ SetQ(IF Rec[l].res = "ok" THEN WQ!UpdateChainTip(Q, t, act["S"], ms, bday, mst) ELSE Q, ins, Rec[l])
                /\ (Rec[l].res = "ok" /\ t >= act["S"] /\ ~(ms # WQ!NoH /\ t < ms) /\ bday # WQ!NoH) =>
                      PrintT(<< "WQSTAT", "tip", TipKind(WQ!TipInsertions(t, ms, bday, mst)),
                                \* every known shard ends above the block after the highest scanned one: a Historic gap may remain
@@ -96,7 +118,8 @@ TScan == /\ IsEvent("scan")
                 found == UNION { notesAt[h] : h \in R }
                 pf    == { n[1] : n \in found }
                 res   == WQ!ScanComplete(Q, s, e, found, ends, act, bday)
-            IN  /\ Q' = IF ok THEN res ELSE Q           \* a refused scan (only the open C06 finding refuses one) changes nothing
+            IN  /\ SetQ(IF ok THEN res ELSE Q,           \* a refused scan (only the open C06 finding refuses one) changes nothing
+                        IF ok THEN WQ!ScanInsertions(s, e, found, ends, act, bday) ELSE << >>, Rec[l])
                 /\ scanned' = IF ok THEN scanned \cup R ELSE scanned
                 \* statistics for the vacuity guard: a batch that found notes in two or more pools -- do the pools' extents
                 \* differ, and for which pools would the table be another if that pool's notes had not been found?
@@ -112,7 +135,7 @@ TScan == /\ IsEvent("scan")
 TTrunc == /\ IsEvent("trunc")
           /\ LET ok == Rec[l].res = "ok"
                  to == Rec[l].to
-             IN  /\ Q' = IF ok THEN WQ!Cut(Q, to) ELSE Q
+             IN  /\ SetQ(IF ok THEN WQ!Cut(Q, to) ELSE Q, << >>, Rec[l])
                  /\ scanned' = IF ok THEN SeqToSet(Rec[l].post.blocks) ELSE scanned
                  /\ top' = IF ok /\ Rec[l].fork /\ to < top THEN to ELSE top
                  /\ notesAt' = IF ok /\ Rec[l].fork /\ to < top THEN [x \in 1..(IF to < 0 THEN 0 ELSE to) |-> notesAt[x]] ELSE notesAt
@@ -124,17 +147,49 @@ TTrunc == /\ IsEvent("trunc")
 
 TRoots == /\ IsEvent("roots")
           /\ ends' = IF Rec[l].res = "ok" THEN WQ!PutRoot(ends, Rec[l].pool, Rec[l].index, Rec[l].h) ELSE ends
-          /\ UNCHANGED << Q, scanned, top, notesAt, bday, act >>
+          /\ UNCHANGED << scanned, top, notesAt, bday, act >>
+          /\ SetQ(Q, << >>, Rec[l])
           /\ PostOK(Rec[l])
 
+\* prune_scan_queue_below(h, retain): retain -1 = None, else the lowest retained priority
+TPrune == /\ IsEvent("prune")
+          /\ LET r == IF Rec[l].retain < 0 THEN WQ!None ELSE Rec[l].retain
+                 pred == IF Rec[l].res = "ok" THEN WQ!Prune(Q, Rec[l].h, r) ELSE Q
+             IN  /\ SetQ(pred, << >>, Rec[l])
+                 /\ (Rec[l].res = "ok" /\ ~apart) =>
+                       PrintT(<< "WQSTAT", "prune", IF r = WQ!None THEN "none" ELSE "some",
+                                 IF \E x \in WQ!Hts : Q.f[x] # WQ!None /\ pred.f[x] = WQ!None THEN "deleted" ELSE "-",
+                                 IF \E x \in WQ!Hts : Q.f[x] \notin { WQ!None, WQ!Ignored } /\ pred.f[x] = WQ!Ignored THEN "demoted" ELSE "-",
+                                 \* a retained entry lies between pruned ones (demotion needed to keep the table gap-free)
+                                 LET D == { x \in WQ!Hts : Q.f[x] # WQ!None /\ pred.f[x] = WQ!None }
+                                     Z == { z \in WQ!Hts : Q.f[z] \notin { WQ!None, WQ!Ignored } /\ pred.f[z] = WQ!Ignored }
+                                 IN  IF D # {} /\ Z # {} /\ \E y \in WQ!Hts : /\ pred.f[y] = Q.f[y] /\ Q.f[y] \notin { WQ!None, WQ!Ignored }
+                                                                                /\ y > WQ!SetMin(D) /\ y < WQ!SetMax(Z)
+                                     THEN "island" ELSE "-" >>)
+          /\ UNCHANGED << scanned, top, notesAt, ends, bday, act >>
+          /\ PostOK(Rec[l])
+
+\* queue_rescans(ranges, priority): forced insertions
+TRescan == /\ IsEvent("rescan")
+           /\ LET ins == WQ!RescanInsertions(Rec[l].ranges, Rec[l].p)
+                  ok  == Rec[l].res = "ok"
+              IN  /\ SetQ(IF ok THEN WQ!Replace(Q, ins) ELSE Q, IF ok THEN ins ELSE << >>, Rec[l])
+                  /\ (ok /\ ~apart) =>
+                        PrintT(<< "WQSTAT", "rescan",
+                                  IF \E i \in DOMAIN ins : \E x \in WQ!Hts : ins[i].s <= x /\ x < ins[i].e /\ Q.f[x] = WQ!Scanned /\ ins[i].p > WQ!Scanned
+                                  THEN "over-scanned" ELSE "-" >>)
+           /\ UNCHANGED << scanned, top, notesAt, ends, bday, act >>
+           /\ PostOK(Rec[l])
+
 \* suggest_scan_ranges, the end of a sync loop, the comparison with a fresh wallet, ...: no effect on the queue
-TOther == /\ l <= Len(Rec) /\ Rec[l].a \notin { "reset", "block", "tip", "scan", "trunc", "roots" } /\ l' = l + 1
-          /\ UNCHANGED << Q, scanned, top, notesAt, ends, bday, act >>
+TOther == /\ l <= Len(Rec) /\ Rec[l].a \notin { "reset", "block", "tip", "scan", "trunc", "roots", "prune", "rescan" } /\ l' = l + 1
+          /\ UNCHANGED << scanned, top, notesAt, ends, bday, act >>
+          /\ SetQ(Q, << >>, Rec[l])
           /\ PostOK(Rec[l])
 
 TraceInit == /\ l = 1 /\ Q = WQ!EmptyQueue /\ scanned = {} /\ top = 0 /\ notesAt = << >>
-             /\ ends = [P \in PoolSet |-> {}] /\ bday = WQ!NoH /\ act = [P \in PoolSet |-> WQ!NoH]
-TraceNext == TReset \/ TBlock \/ TTip \/ TScan \/ TTrunc \/ TRoots \/ TOther
+             /\ ends = [P \in PoolSet |-> {}] /\ bday = WQ!NoH /\ act = [P \in PoolSet |-> WQ!NoH] /\ apart = FALSE
+TraceNext == TReset \/ TBlock \/ TTip \/ TScan \/ TTrunc \/ TRoots \/ TPrune \/ TRescan \/ TOther
 TraceSpec == TraceInit /\ [][TraceNext]_vars
 
 Accepted == LET n == TLCGet("stats").diameter - 1
